@@ -7,7 +7,7 @@
 //! Router::with_registry, and linearizability of recorded concurrent histories.
 
 use crate::common::*;
-use repe::{ErrorCode, Message, QueryFormat, Registry, Router};
+use repe::{ErrorCode, Message, QueryFormat, Registry, Router, CallContext, MessageView};
 use serde_json::{Map, Value, json};
 use std::collections::{BTreeMap, HashSet};
 use std::sync::atomic::{AtomicU64, Ordering};
@@ -564,13 +564,18 @@ fn check_mount(rep: &mut Report, r: &mut Rng, case: u64) {
         }
         let mut b = Message::builder().id(j as u64 + 1).query_str(&path).query_format(QueryFormat::JsonPointer);
         if let Some(v) = &body {
-            b = b.body_json(v).unwrap();
+            // JSON mostly, BEVE now and then (the same value either way)
+            b = if r.below(4) == 0 { b.body_beve(v).unwrap() } else { b.body_json(v).unwrap() };
         } else {
             // an empty body is a read whatever its body-format code says
             b = b.body_format_code(*r.pick(&[0u16, 1, 2, 3, 3, 77]));
         }
         let req = b.build();
-        let resp = match catching(|| h.handle(&req)) {
+        // the owned and the borrowed entry point of the mount are twins: half the requests go through each
+        let via_view = r.coin();
+        rep.count(if via_view { "mount_requests_via_handle_view" } else { "mount_requests_via_handle" }, 1);
+        let wire = req.to_vec();
+        let resp = match catching(|| if via_view { h.handle_view(&MessageView::from_slice(&wire).unwrap(), &CallContext::detached(&path)) } else { h.handle(&req) }) {
             Ok(Ok(m)) => m,
             Ok(Err(e)) => {
                 rep.violation("C14:mount:handler-error", format!("mounted registry handler returned Err({e}) for {path:?}"), json!({"prefix": prefix, "pointer": ptr}));
@@ -600,6 +605,79 @@ fn check_mount(rep: &mut Report, r: &mut Rng, case: u64) {
             let (od, om) = if to_sib { (&direct_main, &mounted_main) } else { (&direct_sib, &mounted_sib) };
             if od.doc() != om.doc() || *od.log.lock().unwrap() != *om.log.lock().unwrap() {
                 rep.violation("C14:mount:sibling-state-changed", format!("after {path:?} (mounts at {main_prefix:?} and {sib_prefix:?}): the OTHER mount's registry changed"), json!({"prefix": prefix, "pointer": ptr, "sibling": sib_prefix}));
+            }
+        }
+    }
+}
+
+// ------------------------------------------------------------------ callables that use their own registry
+
+/// A callable may read, write and register into the registry it is registered in (nothing in the statement forbids it, and the
+/// registry releases its lock before invoking): the request completes, the callable ran exactly once with the supplied body, and
+/// what it wrote is what later reads return. Each scenario runs on a helper thread with a bounded wait.
+fn check_reentrant_callables(rep: &mut Report) {
+    for kind in 0..4u32 {
+        let reg = Arc::new(Registry::new());
+        reg.set_root(json!({"k": 1, "arr": [1, 2, 3]}));
+        let calls = Arc::new(Mutex::new(0u32));
+        let (r2, c2) = (reg.clone(), calls.clone());
+        reg.register_function("/fn", move |params: Option<Value>| {
+            *c2.lock().unwrap() += 1;
+            let body = params.unwrap_or(Value::Null);
+            match kind {
+                0 => {
+                    let _ = r2.dispatch("/k", Some(body.clone()));
+                }
+                1 => {
+                    let _ = r2.register_value("/made/by/fn", body.clone());
+                }
+                2 => {
+                    let _ = r2.read_value("/arr/1");
+                    let _ = r2.dispatch("/arr/1", Some(body.clone()));
+                }
+                _ => {
+                    let mut m = Map::new();
+                    m.insert("merged".to_string(), body.clone());
+                    let _ = r2.merge_root(m);
+                }
+            }
+            Ok(json!({"did": kind}))
+        })
+        .unwrap();
+        let (tx, rx) = std::sync::mpsc::channel();
+        let r3 = reg.clone();
+        let hb = Heartbeat::start();
+        std::thread::spawn(move || {
+            let out = r3.dispatch("/fn", Some(json!(41)));
+            let after = (r3.read_value("/k").ok(), r3.read_value("/made/by/fn").ok(), r3.read_value("/arr/1").ok(), r3.read_value("/merged").ok());
+            let _ = tx.send((out.map_err(|e| e.code() as u32), after));
+        });
+        rep.eval();
+        rep.distinct(&("reentrant-callable", kind));
+        let what = ["writes /k", "registers a value", "reads and writes an array element", "merges into the root"][kind as usize];
+        match rx.recv_timeout(std::time::Duration::from_secs(15)) {
+            Err(_) => {
+                if hb.max_gap_ms() > 1000 {
+                    rep.inconclusive("re-entrant callable did not finish in 15 s, but the machine stalled");
+                } else {
+                    rep.violation("C14:callable-uses-its-registry:never-returned", format!("a callable that {what} through its own registry handle never returned (15 s): the registry is still locked while the callable runs"), json!({"kind": kind}));
+                }
+            }
+            Ok((out, (k, made, arr1, merged))) => {
+                let n = *calls.lock().unwrap();
+                let ok = out == Ok(json!({"did": kind}))
+                    && n == 1
+                    && match kind {
+                        0 => k == Some(json!(41)),
+                        1 => made == Some(json!(41)),
+                        2 => arr1 == Some(json!(41)),
+                        _ => merged == Some(json!(41)),
+                    };
+                if !ok {
+                    rep.violation("C14:callable-uses-its-registry:wrong-outcome", format!("callable that {what}: dispatch returned {out:?}, invoked {n} time(s); afterwards /k={k:?} /made/by/fn={made:?} /arr/1={arr1:?} /merged={merged:?}"), json!({"kind": kind}));
+                } else {
+                    rep.count("reentrant_callables_completed", 1);
+                }
             }
         }
     }
@@ -736,6 +814,7 @@ pub fn run(args: &Args) -> Report {
     quiet_panics(true);
     let (lz, lp) = probe_index_modes();
     rep.set("array_index_spelling_on_the_read_path", json!({"leading_zeros_accepted": lz, "plus_sign_accepted": lp, "note": "every other path (write, merge, mount, helpers) must agree with the read path"}));
+    check_reentrant_callables(&mut rep);
     let mut rng = Rng::new(args.seed ^ 0xC14);
 
     // (a) small scope, exhaustive
